@@ -232,7 +232,9 @@ class LALR_Analyzer(GrammarAnalyzer):
             includes = []
             lookback = self.lookback[nt]
             for rp in state.closure:
-                if rp.rule.origin != nonterminal:
+                if rp.rule.origin != nonterminal or rp.index != 0:
+                    # only an item that starts here belongs to this transition; a kernel item
+                    # of the same origin (index > 0) was started in a predecessor state
                     continue
                 # traverse the states for rp(.rule)
                 state2 = state
